@@ -19,7 +19,7 @@ fn find_content_string(input: &str) -> Option<&str> {
     let mut state = FindState::Idle;
 
     for current in input.chars().rev() {
-        pos += 1;
+        pos += current.len_utf8(); // byte position (from the end), used for slicing
         match state {
             FindState::Idle => {
                 if current == '/' {
